@@ -130,6 +130,11 @@ def spec_call(ex, ev: Eval, node: ast.Call, fname: str):
                         sub_st.vars[p + k2[len(real):]] = v2
         sub = Eval(ex, sub_st, True, bound, ev.old, ev.result)
         return V(BOOL, z3.And(*[sub.boolean(ex.parse_clause(c)) for c in m.clauses]))
+    if fname in ex.reg.deffns:
+        params, body, group, ret = ex.reg.deffns[fname]
+        rt = parse_type(ret)
+        f = ufun(fname, [z3.IntSort()] * len(params), sort_of(rt))
+        return V(rt, f(*[coerce_to(ev.expr(x), INT).z for x in a]))
     if fname in ex.reg.ghostfns:
         g = ex.reg.ghostfns[fname]
         ats = [parse_type(x, ex.generics) for x in g.args]
